@@ -58,13 +58,13 @@ func driveAnim(c *Ctx) error {
 		}
 		pairs = []animInput{in}
 	} else {
-		Ts := []int{1, 2, 3, 10, 16, 100, 1000, 1200}
+		Ts := []int{1, 2, 3, 10, 16, 100, 1000, 1200, 2000, 5000}
 		var ns []int
 		if c.Thorough() {
 			for n := 1; n <= 130; n++ {
 				ns = append(ns, n)
 			}
-			Ts = append(Ts, 7, 33, 250, 5000)
+			Ts = append(Ts, 7, 33, 250, 3000, 7500)
 		} else {
 			for n := 1; n <= 24; n++ {
 				ns = append(ns, n)
